@@ -156,6 +156,12 @@ def fixrot_case(c):
         atoms.set_masses(c["masses"])
     atoms.set_constraint(FixRot())
     p = np.array(c["momenta"], dtype=float)
+    if c.get("warm"):
+        # the same constraint object has just been used on the same coordinates with OTHER masses (isotope substitution between two uses)
+        real = atoms.get_masses().copy()
+        atoms.set_masses(real[::-1] * 1.9 + 1.0)
+        atoms.set_momenta(p * 0.5)
+        atoms.set_masses(real)
     atoms.set_momenta(p)                       # apply_constraint=True: FixRot.adjust_momenta
     p2 = atoms.get_momenta()
     m = atoms.get_masses()
